@@ -8,12 +8,12 @@ from replay import harness, ref
 from replay.inflate import StrictInflater, InflateError
 
 
-def ext_header(smw, cmw, snct, cnct):
+def ext_header(smw, cmw, snct, cnct, eq='='):
     parts = ['permessage-deflate']
     if smw is not None:
-        parts.append('server_max_window_bits=%d' % smw)
+        parts.append('server_max_window_bits%s%d' % (eq, smw))
     if cmw is not None:
-        parts.append('client_max_window_bits=%d' % cmw)
+        parts.append('client_max_window_bits%s%d' % (eq, cmw))
     if snct:
         parts.append('server_no_context_takeover')
     if cnct:
@@ -24,14 +24,18 @@ def ext_header(smw, cmw, snct, cnct):
 def payloads(seed=0):
     rnd = random.Random(seed)
     base = bytes(rnd.randrange(256) for _ in range(300))
-    return [b'', b'a', b'hello hello hello hello', base + base[:40], bytes(rnd.randrange(256) for _ in range(700)),
+    big = bytes(rnd.randrange(256) for _ in range(1500))
+    return [big + big[:64], b'', b'a', b'hello hello hello hello', base + base[:40], bytes(rnd.randrange(256) for _ in range(700)),
             (b'abcdefghij' * 60), base[100:160] + b'tail']
+
+
+EQ = ['=']
 
 
 def connected(smw, cmw, snct, cnct):
     run = harness.Run()
     ws = harness.WebSocket('ws://example.com/', compress=True)
-    S = harness.make_session_class(run, lambda w: [harness.response_for(w.key, ext_header(smw, cmw, snct, cnct))])
+    S = harness.make_session_class(run, lambda w: [harness.response_for(w.key, ext_header(smw, cmw, snct, cnct, EQ[0]))])
     gen = ws.connect(session_class=S, ping_rate=0)
     for ev in gen:
         if ev.name in ('ready', 'rejected', 'disconnected', 'connect_fail'):
@@ -126,8 +130,13 @@ def battery(configs=None, eof=True):
 
 
 def replay(obligation, extra):
-    for r in battery():
-        return r
+    for eq in ('=', ' = ', '= ', ' ='):
+        EQ[0] = eq
+        for r in battery(configs=None if eq == '=' else [(10, 10, 0, 0), (15, 9, 0, 1), (None, 12, 1, 0)], eof=(eq == '=')):
+            if eq != '=':
+                r['input'] += ' (parameters spelled with %r)' % eq
+            return r
+    EQ[0] = '='
     return dict(found=False, tried='100 parameter combinations x 7-message histories, both directions, fragmented and BFINAL variants')
 
 
